@@ -149,7 +149,7 @@ def t8_view_merge(prog):
     return r
 
 
-@rule('T9', props=['C08', 'C07'], floor=7, configs=('all', 'default'))
+@rule('T9', props=['C08', 'C07', 'C12'], floor=7, configs=('all', 'default'))
 def t9_entry_filter(prog):
     """EntryFilter: every component view kind (optional ones too) -> Has<C>; identifier and the empty
     list -> a filter that matches nothing (Not<None>); a list -> Or<tail, head>."""
@@ -666,4 +666,49 @@ def t11_view_indices(prog):
         else:
             if v != rec[0]['ret']:
                 r.viol('T11', key + '/shape', f.loc(), 'a component that is not viewed contributes no index: indices must be the tail\'s indices')
+    return r
+
+
+@rule('T12', props=['C15', 'C08', 'C07'], floor=14, configs=('all',))
+def t12_claims_lists_recurse(prog):
+    """Every `claims()` function of the crate (component and resource view lists, their outer/expanded wrappers)
+    builds its result from the `claims()` of what it wraps: a cons-cell impl returns `(head claim, <tail>::claims())`
+    or delegates to another `claims()` whole; only the Null cell returns the empty list. Anything else — in
+    particular `Default::default()` for the tail (all `Claim::None`) — publishes no claims for the rest of the list,
+    and a conflicting task of the next stage is started early."""
+    from . import pathsem
+    r = Result()
+    for f in prog.fns.values():
+        if f.name != 'claims' or f.kind != 'AssocFn' or not f.impl or not f.impl['trait']:
+            continue
+        if (f.d.get('inputs') or []):
+            continue
+        st = f.impl['self']
+        key = '%s::claims for %s [%s]' % (f.impl['trait']['path'].rsplit('::', 2)[-2] + '::' + f.impl['trait']['path'].rsplit('::', 1)[-1], ty_str(st), '|'.join(ty_str(a) for a in trait_args(f.impl))[:80])
+        r.inst(key)
+        E = pathsem.analyse(prog, f)
+        rets = [p for p in E.paths if p.ended == 'return']
+        if E.truncated or not rets:
+            r.viol('T12', key + '/not-analysable', f.loc(), 'path enumeration cut off')
+            continue
+        is_null = st.get('k') == 'adt' and st['path'].endswith('::Null')
+        for p in rets:
+            v = p.ret
+            tails = {e['ret']: e for e in p.calls(lambda e: e['name'] == 'claims')}
+            if is_null:
+                if tails or not (isinstance(v, tuple) and v[0] == 'agg' and v[1].endswith('::Null')):
+                    r.viol('T12', key + '/null', f.loc(), 'the empty list must publish the empty claim list')
+                break
+            if v in tails:
+                break           # delegates whole
+            ok = isinstance(v, tuple) and v[0] == 'agg' and v[1] == 'tuple' and len(v[4]) == 2 and v[4][1] in tails
+            if ok and st.get('k') == 'tuple' and len(st['e']) == 2:
+                g = [json.loads(x) for x in tails[v[4][1]]['gargs']]
+                ok = bool(g) and ty_eq(g[0], strip_regions(st['e'][1]))
+                if not ok:
+                    r.viol('T12', key + '/tail-of-other-list', f.loc(), 'the tail claims are taken from %s instead of the tail of this list' % (ty_str(g[0]) if g else '?'))
+                    break
+            if not ok:
+                r.viol('T12', key + '/tail-claims-dropped', f.loc(), 'claims() does not append the claims() of the tail of its list (got %s): the rest of the list is published as unclaimed' % pathsem.tstr(v)[:100])
+            break
     return r
